@@ -948,7 +948,10 @@ class PyvalColorizer:
 
             elif op == sre_constants.SUBPATTERN: #type:ignore[attr-defined]
                 if args[0] is None:
-                    self._output(r'(?:', self.RE_GROUP_TAG, state)
+                    # A non-capturing group can carry scoped inline flags: (?i:...), (?s-i:...)
+                    on = ''.join(c for (c,n) in sorted(sre_parse36.FLAGS.items()) if n&args[1])
+                    off = ''.join(c for (c,n) in sorted(sre_parse36.FLAGS.items()) if n&args[2])
+                    self._output('(?%s%s:' % (on, '-'+off if off else ''), self.RE_GROUP_TAG, state)
                 elif args[0] in groups:
                     self._output(r'(?P<', self.RE_GROUP_TAG, state)
                     self._output(groups[args[0]], self.RE_REF_TAG, state)
